@@ -4,20 +4,292 @@ From PV Require Import Model.Robust.
 Import ListNotations.
 Local Open Scope Z_scope.
 
-(* the closure returned by substr as the code has it now: slices out of range *)
-Lemma substr_refuted :
-  exists st s, fst (substr_call st s) = Panicked.
-Proof. exists {| sb_start := -10; sb_end := 0 |}, [97%N; 98%N; 99%N]. vm_compute. reflexivity. Qed.
+Lemma blen_nonneg : forall s, 0 <= blen s.
+Proof. intro s. unfold blen. lia. Qed.
 
-Lemma substr_refuted_2 :
-  fst (substr_call {| sb_start := 5; sb_end := 8 |} [97%N; 98%N; 99%N]) = Panicked.
-Proof. vm_compute. reflexivity. Qed.
+(* ---------- slicing and substr ---------- *)
+Lemma go_slice_done : forall s lo hi, 0 <= lo -> lo <= hi -> hi <= blen s ->
+  go_slice s lo hi = Done (firstn (Z.to_nat (hi - lo)) (skipn (Z.to_nat lo) s)).
+Proof.
+  intros s lo hi H1 H2 H3. unfold go_slice.
+  destruct (Z.leb_spec 0 lo); [|lia]. destruct (Z.leb_spec lo hi); [|lia].
+  destruct (Z.leb_spec hi (blen s)); [|lia]. reflexivity.
+Qed.
 
-(* and the captured start/end drift between calls of one closure: substr(-1) gives "c" on "abc" and then "" on "abcdef" *)
-Lemma substr_drift :
-  substr_seq {| sb_start := -1; sb_end := 0 |} [[97%N; 98%N; 99%N]; [97%N; 98%N; 99%N; 100%N; 101%N; 102%N]]
-  = [Done [99%N]; Done [99%N]].
-Proof. vm_compute. reflexivity. Qed.
+(* the slice is a contiguous piece of the input *)
+Lemma go_slice_piece : forall s lo hi r, go_slice s lo hi = Done r ->
+  exists pre post, s = pre ++ r ++ post /\ blen pre = lo /\ blen r = hi - lo.
+Proof.
+  intros s lo hi r H. unfold go_slice in H.
+  destruct (Z.leb_spec 0 lo); [|discriminate]. destruct (Z.leb_spec lo hi); [|discriminate].
+  destruct (Z.leb_spec hi (blen s)); [|discriminate]. cbn in H. injection H as <-.
+  exists (firstn (Z.to_nat lo) s), (skipn (Z.to_nat (hi - lo)) (skipn (Z.to_nat lo) s)).
+  unfold blen in *. split; [|split].
+  - rewrite firstn_skipn. rewrite firstn_skipn. reflexivity.
+  - rewrite firstn_length. lia.
+  - rewrite firstn_length, skipn_length. lia.
+Qed.
 
-Lemma xpath_refuted : exists k, xpath_values true k = Panicked.
-Proof. exists XNumber. reflexivity. Qed.
+Lemma substr_call_done : forall st s, exists r, substr_call st s = (Done r, st).
+Proof.
+  intros st s. unfold substr_call.
+  pose proof (blen_nonneg s) as Hl. set (l := blen s) in *.
+  set (s1 := if sb_start st <? 0 then l + sb_start st else sb_start st).
+  set (s2 := if s1 <? 0 then 0 else s1).
+  set (s3 := if s2 >? l then l else s2).
+  set (e1 := if sb_end st <=? 0 then l + sb_end st else sb_end st).
+  set (e2 := if e1 <? 0 then 0 else e1).
+  set (e3 := if e2 >? l then l else e2).
+  assert (Hs : 0 <= s3 <= l).
+  { subst s3 s2. destruct (Z.ltb_spec s1 0); destruct (Z.gtb_spec 0 l); try lia;
+      destruct (Z.gtb_spec s1 l); lia. }
+  assert (He : 0 <= e3 <= l).
+  { subst e3 e2. destruct (Z.ltb_spec e1 0); destruct (Z.gtb_spec 0 l); try lia;
+      destruct (Z.gtb_spec e1 l); lia. }
+  destruct (Z.gtb_spec s3 e3).
+  - eexists. rewrite go_slice_done by (fold l; lia). reflexivity.
+  - eexists. rewrite go_slice_done by (fold l; lia). reflexivity.
+Qed.
+
+Lemma substr_call_not_panic : forall st s, fst (substr_call st s) <> Panicked.
+Proof. intros st s. destruct (substr_call_done st s) as [r ->]. discriminate. Qed.
+
+Lemma substr_call_state : forall st s, snd (substr_call st s) = st.
+Proof. intros st s. destruct (substr_call_done st s) as [r ->]. reflexivity. Qed.
+
+(* every call in any sequence of calls of one closure returns a value; the captured bounds never change, so each
+   result depends on the configured bounds and on that call's value only *)
+Lemma substr_seq_safe : forall inputs st,
+  Forall2 (fun s o => o = fst (substr_call st s) /\ exists r, o = Done r) inputs (substr_seq st inputs).
+Proof.
+  induction inputs as [|s r IH]; intros st; cbn [substr_seq]; [constructor|].
+  destruct (substr_call_done st s) as [x Hx]. rewrite Hx. constructor.
+  - split; [rewrite Hx; reflexivity|exists x; reflexivity].
+  - apply IH.
+Qed.
+
+Lemma substr_seq_no_panic : forall inputs st, Forall (fun o => o <> Panicked) (substr_seq st inputs).
+Proof.
+  intros inputs st. pose proof (substr_seq_safe inputs st) as H.
+  induction H as [|s o ss os [_ [r ->]] _ IH]; constructor; [discriminate|exact IH].
+Qed.
+
+(* ---------- modifiers and var/header ---------- *)
+Lemma apply_mod_done : forall m s, exists r, apply_mod m s = Done r.
+Proof.
+  intros [| |st|a b] s; cbn [apply_mod]; try (eexists; reflexivity).
+  destruct (substr_call_done st s) as [r ->]. exists r. reflexivity.
+Qed.
+
+Lemma apply_chain_done : forall ms s, exists r, apply_chain ms s = Done r.
+Proof.
+  induction ms as [|m ms IH]; intro s; cbn [apply_chain]; [eexists; reflexivity|].
+  destruct (apply_mod_done m s) as [r ->]. apply IH.
+Qed.
+
+Lemma var_header_one_spec : forall chain value,
+  (parse_chain chain = None /\ var_header_one chain value = Failed) \/
+  (exists ms, parse_chain chain = Some ms /\ exists v, var_header_one chain value = Done v).
+Proof.
+  intros chain value. unfold var_header_one. destruct (parse_chain chain) as [ms|].
+  - right. exists ms. split; [reflexivity|]. destruct value as [|c r]; [eexists; reflexivity|].
+    destruct (apply_chain_done ms (c :: r)) as [x ->]. eexists; reflexivity.
+  - left. split; reflexivity.
+Qed.
+
+Lemma var_header_one_not_panic : forall chain value, var_header_one chain value <> Panicked.
+Proof.
+  intros chain value. destruct (var_header_one_spec chain value) as [[_ ->]|(ms & _ & v & ->)]; discriminate.
+Qed.
+
+Lemma var_header_process_not_panic : forall mapping, var_header_process mapping <> Panicked.
+Proof.
+  induction mapping as [|[chain value] r IH]; cbn [var_header_process]; [discriminate|].
+  destruct (var_header_one_spec chain value) as [[_ ->]|(ms & _ & v & ->)]; [discriminate|exact IH].
+Qed.
+
+(* ---------- assertions, xpath, jsonpath ---------- *)
+Lemma assert_process_not_panic : forall a r, assert_process a r <> Panicked.
+Proof.
+  intros a r. unfold assert_process.
+  repeat match goal with
+         | |- context [if ?c then _ else _] => destruct c
+         | |- context [match ?x with _ => _ end] => destruct x
+         end; discriminate.
+Qed.
+
+Lemma grpc_assert_not_panic : forall st p code out, grpc_assert st p code out <> Panicked.
+Proof.
+  intros st p code out. unfold grpc_assert.
+  repeat match goal with
+         | |- context [if ?c then _ else _] => destruct c
+         | |- context [match ?x with _ => _ end] => destruct x
+         end; discriminate.
+Qed.
+
+Lemma xpath_values_not_panic : forall c k, xpath_values c k <> Panicked.
+Proof. intros [|] [| | |]; discriminate. Qed.
+
+Lemma var_xpath_process_not_panic : forall m, var_xpath_process m <> Panicked.
+Proof.
+  induction m as [|[c k] r IH]; cbn [var_xpath_process]; [discriminate|].
+  destruct c, k; cbn; try discriminate; exact IH.
+Qed.
+
+Lemma var_jsonpath_process_not_panic : forall j ps, var_jsonpath_process j ps <> Panicked.
+Proof. intros j ps. unfold var_jsonpath_process. destruct (negb j); [discriminate|]. destruct (forallb _ ps); discriminate. Qed.
+
+Lemma pp_eval_not_panic : forall p, pp_eval p <> Panicked.
+Proof.
+  intros [m|a r|m|j ps]; cbn [pp_eval].
+  - apply var_header_process_not_panic.
+  - apply assert_process_not_panic.
+  - apply var_xpath_process_not_panic.
+  - apply var_jsonpath_process_not_panic.
+Qed.
+
+(* ---------- BaseGun.Shoot ---------- *)
+Definition clean (r : response) : bool := conn_ok (rs_conn r) && rs_body_ok r.
+
+Lemma base_shoot_total : forall c r,
+  bc_bound c = true -> bc_connect c <> Some false -> (bc_http2 c = true -> rs_h2 r = true) ->
+  exists sm, base_shoot c false r = Returned [sm] /\
+    (clean r = true -> sm = {| sm_code := rs_status r; sm_err := false |}) /\
+    (clean r = false -> sm_err sm = true) /\
+    (conn_ok (rs_conn r) = true -> sm_code sm = rs_status r).
+Proof.
+  intros c r Hb Hc Hh. unfold base_shoot, clean. rewrite Hb. cbn [negb].
+  assert (H2 : bc_http2 c && negb (rs_h2 r) = false).
+  { destruct (bc_http2 c); [rewrite Hh by reflexivity|]; reflexivity. }
+  destruct (bc_connect c) as [[|]|]; try congruence; cbn [negb]; rewrite H2;
+    destruct (conn_ok (rs_conn r)); cbn [negb andb];
+    (eexists; split; [reflexivity|]); cbn [sm_err sm_code];
+    (repeat split; intro H; try discriminate; try reflexivity;
+     destruct (rs_body_ok r); try discriminate; reflexivity).
+Qed.
+
+Lemma base_shoot_invalid : forall c r, bc_bound c = true -> bc_connect c <> Some false ->
+  base_shoot c true r = Returned [{| sm_code := 0; sm_err := false |}].
+Proof.
+  intros c r Hb Hc. unfold base_shoot. rewrite Hb. cbn [negb].
+  destruct (bc_connect c) as [[|]|]; try congruence; reflexivity.
+Qed.
+
+(* the only panic leaves: gun not bound, or the documented-fatal HTTP/2 condition *)
+Lemma base_shoot_panic_only : forall c inv r l, base_shoot c inv r = ShotPanic l ->
+  bc_bound c = false \/ (bc_http2 c = true /\ rs_h2 r = false).
+Proof.
+  intros c inv r l. unfold base_shoot. destruct (bc_bound c); [|left; reflexivity]. cbn [negb].
+  destruct (bc_connect c) as [[|]|]; try discriminate;
+    (destruct inv; [discriminate|]);
+    (destruct (bc_http2 c) eqn:E2; destruct (rs_h2 r) eqn:E3; cbn [andb negb];
+     try (intros _; right; split; reflexivity));
+    destruct (conn_ok (rs_conn r)); discriminate.
+Qed.
+
+(* ---------- ScenarioGun ---------- *)
+Definition pps_safe (s : step_in) : Prop := Forall (fun o => o <> Panicked) (si_pps s).
+
+Lemma run_pps_safe : forall pps, Forall (fun o : outcome unit => o <> Panicked) pps -> run_pps pps <> Panicked.
+Proof.
+  induction pps as [|o r IH]; intro H; cbn [run_pps]; [discriminate|].
+  inversion H; subst. destruct o as [u| |]; [apply IH; assumption|discriminate|congruence].
+Qed.
+
+Lemma shoot_step_safe : forall s, pps_safe s -> shoot_step s <> StepPanic.
+Proof.
+  intros s H. unfold shoot_step.
+  repeat match goal with |- context [if ?c then _ else _] => destruct c end; try discriminate.
+  pose proof (run_pps_safe _ H) as Hr. destruct (run_pps (si_pps s)); [discriminate|discriminate|congruence].
+Qed.
+
+Definition sample_ok_or_failure (sm : sample) : Prop := sm_err sm = false \/ sm = {| sm_code := 0; sm_err := true |}.
+
+Lemma scenario_steps_total : forall steps acc, Forall pps_safe steps ->
+  exists l, scenario_steps steps acc = Returned (acc ++ l) /\ length l = executed steps /\ Forall sample_ok_or_failure l.
+Proof.
+  induction steps as [|s r IH]; intros acc H; cbn [scenario_steps executed].
+  - exists []. rewrite app_nil_r. repeat split. constructor.
+  - inversion H as [|? ? Hs Hr]; subst.
+    pose proof (shoot_step_safe s Hs) as Hn.
+    destruct (shoot_step s) as [sm| |] eqn:E; [| |congruence].
+    + destruct (IH (acc ++ [sm]) Hr) as (l & H1 & H2 & H3). exists (sm :: l).
+      rewrite H1, <- app_assoc. repeat split; [cbn; lia|].
+      constructor; [|exact H3]. left.
+      unfold shoot_step in E.
+      repeat match type of E with context [if ?c then _ else _] => destruct c end; try discriminate.
+      destruct (run_pps (si_pps s)); try discriminate. injection E as <-. reflexivity.
+    + exists [{| sm_code := 0; sm_err := true |}]. repeat split. constructor; [right; reflexivity|constructor].
+Qed.
+
+Lemma scenario_shoot_total : forall steps, Forall pps_safe steps ->
+  exists l, scenario_shoot true steps = Returned l /\ length l = executed steps /\ Forall sample_ok_or_failure l.
+Proof. intros steps H. unfold scenario_shoot. cbn [negb]. apply (scenario_steps_total steps [] H). Qed.
+
+(* steps whose postprocessors are the modelled ones *)
+Definition mk_step (pre tmpl prep : bool) (r : response) (pps : list pp_cfg) : step_in :=
+  {| si_pre_ok := pre; si_tmpl_ok := tmpl; si_prep_ok := prep; si_resp := r; si_pps := map pp_eval pps |}.
+
+Lemma mk_step_safe : forall pre tmpl prep r pps, pps_safe (mk_step pre tmpl prep r pps).
+Proof.
+  intros. unfold pps_safe, mk_step. cbn [si_pps]. apply Forall_forall. intros o Hin.
+  apply in_map_iff in Hin. destruct Hin as (p & <- & _). apply pp_eval_not_panic.
+Qed.
+
+(* ---------- instance.Run ---------- *)
+Lemma instance_run_ok : forall shots, Forall (fun s => exists l, s = Returned l) shots ->
+  snd (instance_run shots) = false /\
+  fst (instance_run shots) = flat_map (fun s => match s with Returned l => l | ShotPanic l => l end) shots.
+Proof.
+  induction shots as [|s r IH]; intro H; cbn [instance_run flat_map]; [split; reflexivity|].
+  inversion H as [|? ? [l ->] Hr]; subst. destruct (IH Hr) as [A B].
+  destruct (instance_run r) as [rest failed]. cbn in *. subst. split; reflexivity.
+Qed.
+
+Lemma instance_http_survives : forall c rs,
+  bc_bound c = true -> bc_connect c <> Some false -> bc_http2 c = false ->
+  snd (instance_run (map (base_shoot c false) rs)) = false /\
+  length (fst (instance_run (map (base_shoot c false) rs))) = length rs.
+Proof.
+  intros c rs Hb Hc H2.
+  assert (HF : Forall (fun s => exists l, s = Returned l) (map (base_shoot c false) rs)).
+  { apply Forall_forall. intros s Hin. apply in_map_iff in Hin. destruct Hin as (r & <- & _).
+    destruct (base_shoot_total c r Hb Hc) as (sm & -> & _); [rewrite H2; discriminate|]. eexists; reflexivity. }
+  destruct (instance_run_ok _ HF) as [A B]. split; [exact A|]. rewrite B.
+  clear A B HF. induction rs as [|r rs IH]; [reflexivity|]. cbn [map flat_map].
+  destruct (base_shoot_total c r Hb Hc) as (sm & -> & _); [rewrite H2; discriminate|].
+  cbn. rewrite IH. reflexivity.
+Qed.
+
+Lemma instance_scenario_survives : forall scenarios,
+  Forall (Forall pps_safe) scenarios ->
+  snd (instance_run (map (scenario_shoot true) scenarios)) = false /\
+  length (fst (instance_run (map (scenario_shoot true) scenarios))) = fold_right (fun st n => (executed st + n)%nat) O scenarios.
+Proof.
+  intros scs H.
+  assert (HF : Forall (fun s => exists l, s = Returned l) (map (scenario_shoot true) scs)).
+  { apply Forall_forall. intros s Hin. apply in_map_iff in Hin. destruct Hin as (st & <- & Hin).
+    rewrite Forall_forall in H. destruct (scenario_shoot_total st (H st Hin)) as (l & -> & _). eexists; reflexivity. }
+  destruct (instance_run_ok _ HF) as [A B]. split; [exact A|]. rewrite B. clear A B HF.
+  induction scs as [|st r IH]; [reflexivity|]. inversion H as [|? ? Hs Hr]; subst.
+  cbn [map flat_map fold_right]. destruct (scenario_shoot_total st Hs) as (l & -> & Hl & _).
+  rewrite app_length, IH by assumption. lia.
+Qed.
+
+Lemma substr_is_slice : forall st s, exists r pre post,
+  substr_call st s = (Done r, st) /\ s = pre ++ r ++ post.
+Proof.
+  intros st s. destruct (substr_call_done st s) as [r H]. exists r.
+  pose proof H as H'. unfold substr_call in H'.
+  match type of H' with (let '(lo, hi) := ?c in _) = _ => destruct c as [lo hi] end.
+  assert (Hg : go_slice s lo hi = Done r) by congruence.
+  destruct (go_slice_piece _ _ _ _ Hg) as (pre & post & E & _). exists pre, post. split; assumption.
+Qed.
+
+Lemma scenario_total_modelled : forall (specs : list (bool * bool * bool * response * list pp_cfg)),
+  let steps := map (fun '(pre, tmpl, prep, r, pps) => mk_step pre tmpl prep r pps) specs in
+  exists l, scenario_shoot true steps = Returned l /\ length l = executed steps /\ Forall sample_ok_or_failure l.
+Proof.
+  intros specs steps. apply scenario_shoot_total. apply Forall_forall. intros s Hin.
+  apply in_map_iff in Hin. destruct Hin as ([[[[pre tmpl] prep] r] pps] & <- & _). apply mk_step_safe.
+Qed.
